@@ -89,10 +89,12 @@ def seqRoundtripNew {α} [Inhabited α] (parent : List α) (v : View) : Except E
       | .error e => .error e
       | .ok v1 => .ok (r.seq, v1)
 
-/-- new `SeqView.copy(sliced=True)`: truncated parent, `step`, **`offset=self.offset`**. -/
+/-- new `SeqView.copy(sliced=True)` (repo commit f9c946a7e): the constructor is called on the
+truncated parent with `step` only — `offset` is NOT passed (defaults to 0); the enclosing
+`Sequence` re-attaches `annotation_offset`. -/
 def viewCopyNew {α} [Inhabited α] (parent : List α) (v : View) : Except Err (List α × View) :=
   let r := toRich parent v
-  match mk r.seq.length none none (some v.step) v.offset with
+  match mk r.seq.length none none (some v.step) 0 with
   | .ok v' => .ok (r.seq, v')
   | .error e => .error e
 
@@ -103,28 +105,6 @@ def seqCopyNew {α} [Inhabited α] (parent : List α) (v : View) : Except Err (L
   | .error e => .error e
   | .ok ps =>
     match viewCopyNew parent v with
-    | .error e => .error e
-    | .ok (p', v') =>
-      match coerceOffset v' ps with
-      | .error e => .error e
-      | .ok v'' => .ok (p', v'')
-
-/-- CURRENT new `SeqView.copy(sliced=True)` (after repo commit f9c946a7e): the constructor is
-called on the truncated parent with `step` only — `offset` is NOT passed (defaults to 0), the
-enclosing `Sequence` re-attaches `annotation_offset`. -/
-def viewCopyNewRepaired {α} [Inhabited α] (parent : List α) (v : View) : Except Err (List α × View) :=
-  let r := toRich parent v
-  match mk r.seq.length none none (some v.step) 0 with
-  | .ok v' => .ok (r.seq, v')
-  | .error e => .error e
-
-/-- CURRENT new `Sequence.copy(sliced=True)`: `offset = self.annotation_offset` (parent_start),
-`data = self._seq.copy(sliced=True)` (`viewCopyNewRepaired`), then the constructor coerces. -/
-def seqCopyNewRepaired {α} [Inhabited α] (parent : List α) (v : View) : Except Err (List α × View) :=
-  match parentStart v with
-  | .error e => .error e
-  | .ok ps =>
-    match viewCopyNewRepaired parent v with
     | .error e => .error e
     | .ok (p', v') =>
       match coerceOffset v' ps with
@@ -237,8 +217,7 @@ def SpanState.length : SpanState → Int
   | .span s e _ _ _ => e - s
   | .lost l => l
 
-/-- `FeatureMap` = recorded spans + parent_length; `to_rich_dict` exports each span's
-recorded constructor arguments (`_serialisable`), `from_rich_dict` calls the constructors again. -/
+/-- constructor call of a `FeatureMap`: span constructor arguments + parent_length -/
 structure FeatureMap where
   spans : List SpanArgs
   parentLength : Int
@@ -254,28 +233,11 @@ def FeatureMap.build (m : FeatureMap) : FeatureState :=
   let sp := m.spans.map SpanArgs.build
   { spans := sp, parentLength := m.parentLength, length := (sp.map SpanState.length).foldl (· + ·) 0 }
 
-/-- JSON: `to_rich_dict` exports, per span, the recorded constructor arguments
-(`Span._serialisable`), and `parent_length` from the live state; `from_rich_dict`
-calls the constructors again. A built map therefore carries its recorded arguments. -/
-structure BuiltFeatureMap where
-  recorded : List SpanArgs
-  state : FeatureState
-  deriving DecidableEq, Repr
-
-def FeatureMap.construct (m : FeatureMap) : BuiltFeatureMap :=
-  { recorded := m.spans, state := FeatureMap.build m }
-
-def BuiltFeatureMap.toRich (b : BuiltFeatureMap) : FeatureMap :=
-  { spans := b.recorded, parentLength := b.state.parentLength }
-
-def BuiltFeatureMap.roundtripJson (b : BuiltFeatureMap) : BuiltFeatureMap :=
-  FeatureMap.construct b.toRich
-
 /-- pickle of the built object: every span is re-initialised from its live state -/
 def FeatureState.roundtripPickle (s : FeatureState) : FeatureState :=
   FeatureMap.build { spans := s.spans.map SpanState.pickleArgs, parentLength := s.parentLength }
 
-/-- CURRENT `Span.to_rich_dict` / `_LostSpan.to_rich_dict` (after repo commit 0de96f35a): the
+/-- `Span.to_rich_dict` / `_LostSpan.to_rich_dict` (after repo commit 0de96f35a): the
 recorded constructor arguments are OVERWRITTEN with the live state (`start`, `end`, `tidy_start`,
 `tidy_end`, `reverse`; `length` for a lost span), so the exported arguments are those of
 `__getstate__`. -/
@@ -283,14 +245,14 @@ def SpanState.richArgs : SpanState → SpanArgs
   | .span s e ts te r => .span s (some e) ts te r
   | .lost l => .lost l
 
-/-- CURRENT `FeatureMap.to_rich_dict`: `[s.to_rich_dict() for s in self.spans]` + live `parent_length`. -/
-def FeatureState.toRichLive (s : FeatureState) : FeatureMap :=
+/-- `FeatureMap.to_rich_dict`: `[s.to_rich_dict() for s in self.spans]` + live `parent_length`. -/
+def FeatureState.toRich (s : FeatureState) : FeatureMap :=
   { spans := s.spans.map SpanState.richArgs, parentLength := s.parentLength }
 
-/-- CURRENT JSON route: `FeatureMap.from_rich_dict(to_rich_dict())` re-runs the span constructors
+/-- JSON route: `FeatureMap.from_rich_dict(to_rich_dict())` re-runs the span constructors
 on the live values and `__post_init__` recomputes `length`. -/
-def FeatureState.roundtripJsonLive (s : FeatureState) : FeatureState :=
-  FeatureMap.build s.toRichLive
+def FeatureState.roundtripJson (s : FeatureState) : FeatureState :=
+  FeatureMap.build s.toRich
 
 /-- well-formed live span: `Span.__init__` leaves `start ≤ end` (asserted: `length >= 0`). -/
 def SpanState.WF : SpanState → Prop
